@@ -3,6 +3,7 @@
   Token-level round-trip theorems (all inputs, all encoder choices).
 -/
 import Parsley.Lemmas.Obj
+import Parsley.Lemmas.Shift
 import Parsley.Spec.Spelling
 namespace Parsley.C02
 open Parsley Parsley.Prim Parsley.Obj Parsley.Spelling
@@ -799,3 +800,243 @@ theorem ws_loop_eq_skip (f : Nat) (s : Bytes) (i : Nat) (e : Bool) (hi : i ≤ s
       refine ⟨by omega, ?_⟩
       congr 1
       cases w <;> simp_all
+
+/-! ## composing: leading whitespace, one token, any legal context -/
+
+theorem wsEOL_eq (e : Bool) (s : Bytes) (i : Nat) (hi : i ≤ s.length) :
+    wsEOL e s i =
+      if (skipWs (s.drop i) == 0) && !e then (.err .guard, i)
+      else (.ok ⟨(), i, i + skipWs (s.drop i)⟩, i + skipWs (s.drop i)) := by
+  unfold wsEOL
+  rw [ws_loop_eq_skip _ s i true hi (Nat.le_refl _)]
+  simp only [Bool.true_and]
+  by_cases hz : skipWs (s.drop i) = 0
+  · simp [hz]
+  · simp [hz]
+
+/-- whitespace runs as the lexical rules define them: whitespace bytes and comments that carry
+    their terminating LF -/
+inductive WsRun : Bytes → Prop
+  | nil : WsRun []
+  | ws (b : UInt8) (t : Bytes) : isWsEol b = true → WsRun t → WsRun (b :: t)
+  | comment (body t : Bytes) : (∀ y ∈ body, y ≠ 10) → WsRun t → WsRun (37 :: body ++ 10 :: t)
+
+theorem skipComment_body (body rest : Bytes) (h : ∀ y ∈ body, y ≠ 10) :
+    skipComment (body ++ 10 :: rest) = body.length + 1 + skipWs rest := by
+  induction body with
+  | nil => simp [skipComment]
+  | cons a t ih =>
+    have ha : (a == 10) = false := by simp [h a (List.mem_cons_self)]
+    simp only [List.cons_append, skipComment, ha, Bool.false_eq_true, if_false, List.length_cons]
+    rw [ih (fun y hy => h y (List.mem_cons_of_mem _ hy))]; omega
+
+/-- a whitespace run followed by something that is neither whitespace nor a comment is skipped exactly -/
+theorem skipWs_run (lead rest : Bytes) (h : WsRun lead)
+    (hrest : ∀ b, rest.head? = some b → isWsEol b = false ∧ b ≠ 37) :
+    skipWs (lead ++ rest) = lead.length := by
+  induction h with
+  | nil =>
+    cases rest with
+    | nil => rfl
+    | cons b r =>
+      have := hrest b rfl
+      simp [skipWs, this.1, this.2]
+  | ws b t hb _ ih =>
+    simp only [List.cons_append, skipWs, hb, if_true, List.length_cons, ih]; omega
+  | comment body t hbody _ ih =>
+    have h37 : isWsEol 37 = false := by decide
+    simp only [List.cons_append, List.append_assoc, skipWs, h37, Bool.false_eq_true, if_false,
+      beq_self_eq_true, if_true]
+    rw [skipComment_body body (t ++ rest) hbody, ih]
+    simp; omega
+
+theorem WsRun.append {a b : Bytes} (ha : WsRun a) (hb : WsRun b) : WsRun (a ++ b) := by
+  induction ha with
+  | nil => simpa
+  | ws x t hx _ ih => exact WsRun.ws x _ hx ih
+  | comment body t hbody _ ih =>
+    have : 37 :: body ++ 10 :: t ++ b = 37 :: body ++ 10 :: (t ++ b) := by simp
+    rw [this]; exact WsRun.comment body _ hbody ih
+
+/-- every piece the spec-side encoder uses is a whitespace run … -/
+theorem wsPieces_run : ∀ p ∈ wsPieces, WsRun p := by
+  intro p hp
+  simp only [wsPieces, List.mem_cons, List.mem_nil_iff, or_false] at hp
+  have w1 : ∀ b : UInt8, isWsEol b = true → WsRun [b] := fun b hb => WsRun.ws b [] hb WsRun.nil
+  rcases hp with h | h | h | h | h | h | h | h | h | h | h <;> subst h
+  · exact w1 _ (by decide)
+  · exact w1 _ (by decide)
+  · exact w1 _ (by decide)
+  · exact w1 _ (by decide)
+  · exact w1 _ (by decide)
+  · exact w1 _ (by decide)
+  · exact WsRun.ws _ _ (by decide) (w1 _ (by decide))
+  · exact WsRun.comment [99] [] (by decide) WsRun.nil
+  · exact WsRun.comment [] [] (by decide) WsRun.nil
+  · exact WsRun.comment [37, 69, 79, 70, 32, 40, 120, 41, 32, 60, 60, 13] [] (by decide) WsRun.nil
+  · exact WsRun.ws _ _ (by decide) (w1 _ (by decide))
+
+/-- … hence so is every run the encoder emits -/
+theorem wsRun_run (k : Nat) (c : Ch) : WsRun (wsRun k c).1 := by
+  induction k generalizing c with
+  | zero => exact WsRun.nil
+  | succ k ih =>
+    simp only [wsRun]
+    apply WsRun.append
+    · cases h : wsPieces[(pick c wsPieces.length).1]? with
+      | none => exact WsRun.ws _ _ (by decide) WsRun.nil
+      | some p => exact wsPieces_run p (List.mem_of_getElem? h)
+    · exact ih _
+
+/-- **`parseObj_token`**: the composition step.  Leading whitespace/comments `lead`, then text
+    `rest` on which the dispatcher (at cursor 0, at any depth, with any parser for nested
+    objects) returns value `v` and stops at `n`: `parse_pdf_obj` on `lead ++ rest` returns `v`
+    with span `[|lead|, |lead| + n)`, cursor `|lead| + n`, and the context unchanged. -/
+theorem parseObj_token (c : Depth) (hc : c.cur < c.max) (lead rest : Bytes) (hlead : WsRun lead)
+    (hrest : ∀ b, rest.head? = some b → isWsEol b = false ∧ b ≠ 37) (v : Obj) (n : Nat)
+    (hint : parseInternal (parseObjB c.max (c.max - c.cur - 1)) (c.cur + 1) rest 0 = ((.ok v, n), c.cur + 1)) :
+    parseObj c (lead ++ rest) 0 = ((.ok ⟨v, lead.length, lead.length + n⟩, lead.length + n), c) := by
+  obtain ⟨b, hb⟩ : ∃ b, c.max - c.cur = b + 1 := ⟨c.max - c.cur - 1, by omega⟩
+  have hb' : c.max - c.cur - 1 = b := by omega
+  rw [hb'] at hint
+  unfold parseObj
+  rw [hb]
+  unfold parseObjB
+  have hne : (c.cur == c.max) = false := by simp; omega
+  simp only [hne, Bool.false_eq_true, if_false]
+  unfold objParse
+  have hws : wsEOL true (lead ++ rest) 0 = (.ok ⟨(), 0, lead.length⟩, lead.length) := by
+    rw [wsEOL_eq true _ 0 (Nat.zero_le _)]
+    simp [skipWs_run lead rest hlead hrest]
+  rw [hws]
+  simp only
+  have hpi := Parsley.Shift.parseInternal_pre lead rest 0 (parseObjB c.max b) (Parsley.Shift.parseObjB_pre lead c.max b) (c.cur + 1)
+  simp only [Nat.add_zero] at hpi
+  rw [hpi, hint]
+  simp [Parsley.Shift.shiftL, leaveObj]
+
+/-- the dispatcher on a name token -/
+theorem parseInternal_name (el : Elem) (cur : Nat) (b : Bytes) (ch : Ch) (ctx : Bytes) (hb : okKey b = true)
+    (hctx : ∀ y, ctx.head? = some y → isNameTerm y = true)
+    (hbody : ∀ y ∈ (nameBody b ch).1, isNameTerm y = false) :
+    parseInternal el cur (47 :: (nameBody b ch).1 ++ ctx) 0 =
+      ((.ok (.name b), (nameBody b ch).1.length + 1), cur) := by
+  unfold parseInternal
+  have hp : peek (47 :: (nameBody b ch).1 ++ ctx) 0 = some 47 := rfl
+  simp only [hp]
+  simp only [show ((47 : UInt8) == 116 || (47 : UInt8) == 102) = false by decide,
+    show ((47 : UInt8) == 110) = false by decide, show ((47 : UInt8) == 40) = false by decide,
+    show ((47 : UInt8) == 37) = false by decide, beq_self_eq_true, Bool.false_eq_true, if_false, if_true]
+  rw [name_roundtrip b ch ctx hb hctx hbody]
+  rfl
+
+/-- **`spell_parse_name`** (C02 for names, end to end through `parse_pdf_obj`): any leading
+    whitespace/comment run, any raw/`#hh` spelling of any null-free name in any hex case, any
+    context that starts with a delimiter or whitespace (or is empty), any context depth below
+    the bound: the object parser returns exactly that name, located at the token, with the
+    cursor immediately after its last byte and the context unchanged. -/
+theorem spell_parse_name (c : Depth) (hc : c.cur < c.max) (lead : Bytes) (hlead : WsRun lead)
+    (b : Bytes) (ch : Ch) (ctx : Bytes) (hb : okKey b = true)
+    (hctx : ∀ y, ctx.head? = some y → isNameTerm y = true)
+    (hbody : ∀ y ∈ (nameBody b ch).1, isNameTerm y = false) :
+    parseObj c (lead ++ (47 :: (nameBody b ch).1 ++ ctx)) 0 =
+      ((.ok ⟨.name b, lead.length, lead.length + ((nameBody b ch).1.length + 1)⟩,
+        lead.length + ((nameBody b ch).1.length + 1)), c) := by
+  apply parseObj_token c hc lead _ hlead
+  · intro y hy
+    simp only [List.cons_append, List.head?_cons, Option.some.injEq] at hy
+    subst hy; decide
+  · exact parseInternal_name _ _ b ch ctx hb hctx hbody
+
+theorem parseInternal_lit (el : Elem) (cur : Nat) (body ctx : Bytes) (hb : litBalanced body 0 = true) :
+    parseInternal el cur ([40] ++ body ++ [41] ++ ctx) 0 = ((.ok (.str body), body.length + 2), cur) := by
+  unfold parseInternal
+  have hp : peek ([40] ++ body ++ [41] ++ ctx) 0 = some 40 := rfl
+  simp only [hp]
+  simp only [show ((40 : UInt8) == 116 || (40 : UInt8) == 102) = false by decide,
+    show ((40 : UInt8) == 110) = false by decide, beq_self_eq_true, Bool.false_eq_true, if_false, if_true]
+  rw [litstring_roundtrip body ctx hb]
+  rfl
+
+/-- **`spell_parse_litstring`**: every balanced (modulo escapes) literal string, after any
+    whitespace/comment run, before anything at all. -/
+theorem spell_parse_litstring (c : Depth) (hc : c.cur < c.max) (lead : Bytes) (hlead : WsRun lead)
+    (body ctx : Bytes) (hb : litBalanced body 0 = true) :
+    parseObj c (lead ++ ([40] ++ body ++ [41] ++ ctx)) 0 =
+      ((.ok ⟨.str body, lead.length, lead.length + (body.length + 2)⟩, lead.length + (body.length + 2)), c) := by
+  apply parseObj_token c hc lead _ hlead
+  · intro y hy
+    simp only [List.cons_append, List.nil_append, List.append_assoc, List.head?_cons, Option.some.injEq] at hy
+    subst hy; decide
+  · exact parseInternal_lit _ _ body ctx hb
+
+theorem parseInternal_hex (el : Elem) (cur : Nat) (body ctx : Bytes)
+    (hb : ∀ y ∈ body, (isHexDigit y || isHexWs y) = true) :
+    parseInternal el cur ([60] ++ body ++ [62] ++ ctx) 0 =
+      ((.ok (.str (hexPairs (hexDigitsOf body))), body.length + 2), cur) := by
+  unfold parseInternal
+  have hp : peek ([60] ++ body ++ [62] ++ ctx) 0 = some 60 := rfl
+  have hp1 : (peek ([60] ++ body ++ [62] ++ ctx) (0 + 1) == some 60) = false := by
+    cases body with
+    | nil => rfl
+    | cons y t =>
+      have := hb y (List.mem_cons_self)
+      have hne : y ≠ 60 := by intro h; subst h; revert this; decide
+      simp [peek, hne]
+  simp only [hp]
+  simp only [show ((60 : UInt8) == 116 || (60 : UInt8) == 102) = false by decide,
+    show ((60 : UInt8) == 110) = false by decide, show ((60 : UInt8) == 40) = false by decide,
+    show ((60 : UInt8) == 37) = false by decide, show ((60 : UInt8) == 47) = false by decide,
+    show ((60 : UInt8) == 91) = false by decide, beq_self_eq_true, Bool.false_eq_true, if_false, if_true, hp1]
+  rw [hexstring_spec body ctx hb]
+  rfl
+
+/-- **`spell_parse_hexstring`**: every hexadecimal string body (digits of either case, embedded
+    whitespace, odd digit count), after any whitespace/comment run, before anything at all. -/
+theorem spell_parse_hexstring (c : Depth) (hc : c.cur < c.max) (lead : Bytes) (hlead : WsRun lead)
+    (body ctx : Bytes) (hb : ∀ y ∈ body, (isHexDigit y || isHexWs y) = true) :
+    parseObj c (lead ++ ([60] ++ body ++ [62] ++ ctx)) 0 =
+      ((.ok ⟨.str (hexPairs (hexDigitsOf body)), lead.length, lead.length + (body.length + 2)⟩,
+        lead.length + (body.length + 2)), c) := by
+  apply parseObj_token c hc lead _ hlead
+  · intro y hy
+    simp only [List.cons_append, List.nil_append, List.append_assoc, List.head?_cons, Option.some.injEq] at hy
+    subst hy; decide
+  · exact parseInternal_hex _ _ body ctx hb
+
+theorem exact_prefix (tag ctx : Bytes) : exact tag (tag ++ ctx) 0 = (true, tag.length) := by
+  unfold exact startsWith
+  have : tag.isPrefixOf (List.drop 0 (tag ++ ctx)) = true := by
+    simp only [List.drop_zero]
+    induction tag with
+    | nil => simp
+    | cons a t ih => simp [List.isPrefixOf, ih]
+  simp [this]
+
+/-- **`spell_parse_keyword`**: `true`, `false` and `null`. -/
+theorem spell_parse_keyword (c : Depth) (hc : c.cur < c.max) (lead : Bytes) (hlead : WsRun lead) (ctx : Bytes) :
+    parseObj c (lead ++ (kwTrue ++ ctx)) 0 = ((.ok ⟨.bool true, lead.length, lead.length + 4⟩, lead.length + 4), c) ∧
+    parseObj c (lead ++ (kwFalse ++ ctx)) 0 = ((.ok ⟨.bool false, lead.length, lead.length + 5⟩, lead.length + 5), c) ∧
+    parseObj c (lead ++ (kwNull ++ ctx)) 0 = ((.ok ⟨.null, lead.length, lead.length + 4⟩, lead.length + 4), c) := by
+  refine ⟨?_, ?_, ?_⟩
+  · apply parseObj_token c hc lead _ hlead
+    · intro y hy; simp [kwTrue] at hy; subst hy; decide
+    · unfold parseInternal
+      have hp : peek (kwTrue ++ ctx) 0 = some 116 := rfl
+      simp only [hp, beq_self_eq_true, Bool.true_or, if_true, boolean, exact_prefix kwTrue ctx]
+      rfl
+  · apply parseObj_token c hc lead _ hlead
+    · intro y hy; simp [kwFalse] at hy; subst hy; decide
+    · unfold parseInternal
+      have hp : peek (kwFalse ++ ctx) 0 = some 102 := rfl
+      have hno : exact kwTrue (kwFalse ++ ctx) 0 = (false, 0) := by
+        simp [exact, startsWith, kwTrue, kwFalse, List.isPrefixOf]
+      simp only [hp, beq_self_eq_true, Bool.or_true, if_true, boolean, hno, exact_prefix kwFalse ctx]
+      rfl
+  · apply parseObj_token c hc lead _ hlead
+    · intro y hy; simp [kwNull] at hy; subst hy; decide
+    · unfold parseInternal
+      have hp : peek (kwNull ++ ctx) 0 = some 110 := rfl
+      simp only [hp, show ((110 : UInt8) == 116 || (110 : UInt8) == 102) = false by decide, beq_self_eq_true,
+        Bool.false_eq_true, if_false, if_true, null, exact_prefix kwNull ctx]
+      rfl
